@@ -15,6 +15,21 @@ NA = {
 PENDING = "check under construction in this session (see DESIGN.md 10 build order)"
 
 CHECKS = {
+    "C04": dict(
+        category="other",
+        text="Abstract interpretation of every public scalar constructor (and Dirichlet::new) on an exhaustive partition of its argument space: "
+             "NaN, ±inf, ±0 and every cell between the constants the code and the documentation compare against, ordered ladders for "
+             "mutually compared arguments, integer extremes; the abstract verdict Ok/Err(variant)/panic is compared with an oracle transcribed "
+             "from the error-variant docs (spec_c04.py); accessors are shown to return the argument they name. A cell stands for infinitely "
+             "many floats, so one decided case covers what no finite test list can. The check found and led to three fix: commits.",
+        design_ref="DESIGN.md 5/C04, Appendix A",
+        note="Envelope semantics (finite op finite = finite): thresholds moved by one ulp, underflow of 0.5*k are invisible. Regions the docs leave "
+             "unspecified are not judged (panic freedom still is). Undecided cases (several abstract outcomes, relational integer bounds) are "
+             "reported, not alarmed; the number of decided cases has a floor. WeightedAliasIndex/WeightedTreeIndex validation is decided under C08/C09. "
+             "Trusted: the axioms in analysis/axioms.py.",
+        technique="abstract interpretation of rustc MIR (interval/cell domain with signed zeros, NaN, infinities; enum-variant and reference tracking; branch refinement) against a doc-derived oracle",
+        engine="rdx+E2",
+    ),
     "C05": dict(
         category="other",
         text="Path/CFG rules over the MIR of every crate-local instance reachable from a sampling root: acyclic call graph; every natural "
